@@ -15,5 +15,20 @@ fn main() {
     // A heap pointer and a stack pointer, so that the layout seam can be seen to act.
     let boxed = Box::new(0u8);
     let local = 0u8;
-    println!("{} heap={:p} stack={:p}", out, &*boxed, &local);
+    // Wall clock, monotonic clock and pid, so that those seams can be seen to act too.
+    let wall = std::time::SystemTime::now()
+        .duration_since(std::time::UNIX_EPOCH)
+        .map(|d| d.as_secs())
+        .unwrap_or(0);
+    let t0 = std::time::Instant::now();
+    let dt = t0.elapsed().as_nanos();
+    println!(
+        "{} heap={:p} stack={:p} wall={} dt={} pid={}",
+        out,
+        &*boxed,
+        &local,
+        wall,
+        dt,
+        std::process::id()
+    );
 }
